@@ -59,12 +59,14 @@ let tok_of_daddr = function
   | M.DBech (p, w, g) -> "bech:" ^ hex_of_bytes p ^ ":" ^ str_z w ^ ":" ^ hex_of_bytes g
 
 (* hash160 oracle supplied by the harness *)
+(* hash160(b''): what Address() hashes when to_bytes leaves nothing of the hash it was given *)
+let h160_empty = bytes_of_hex "b472a266d0bd89c13706a4132ccfb16f7c3b9fcb"
 let oracle t : M.bytes -> M.bytes =
-  if t = "-" then fun _ -> []
+  if t = "-" then fun x -> (if x = [] then h160_empty else [])
   else
     let tbl = List.map (fun p -> match String.split_on_char ':' p with
         | [ i; o ] -> (bytes_of_hex i, bytes_of_hex o) | _ -> failwith "oracle") (String.split_on_char ',' t) in
-    fun x -> (try List.assoc x tbl with Not_found -> [])
+    fun x -> (try List.assoc x tbl with Not_found -> if x = [] then h160_empty else [])
 
 let show = function
   | M.RErr -> "ERR"
